@@ -342,14 +342,40 @@ def answerWatch (ws : List String) : String :=
       "diff arm=watch model=event-outside-the-ticks"
     else answerCase (some c) ["watch"]
 
+/-- round 8c: the outcomes of the 8 attempts a cadence line names (`n`, `p<k>`, `b`, `i<k>`) -/
+def cadOutcomes (errs : String) : Option (List Glue.Pub) :=
+  let idx := (List.range 8).map (· + 1)
+  if errs == "n" then some (idx.map fun _ => Glue.Pub.sent)
+  else if errs == "b" then some (idx.map fun n => if 3 ≤ n && n ≤ 5 then Glue.Pub.error else Glue.Pub.sent)
+  else match (errs.drop 1).toNat? with
+    | some k =>
+      if k == 0 then none
+      else if errs.startsWith "p" then some (idx.map fun n => if n % k == 0 then Glue.Pub.error else Glue.Pub.sent)
+      else if errs.startsWith "i" then some (idx.map fun n => if n == k then Glue.Pub.dropped else Glue.Pub.sent)
+      else none
+    | none => none
+
 def answerCadence (ws : List String) : String :=
   match splitArrow ws with
-  | some ([kind, _ttl, _errs], [p, l]) =>
+  | some ([kind, ttl, errs], [p, l]) =>
     match (kv "pubs" p).bind String.toNat?, (kv "late" l).bind String.toNat? with
     | some pubs, some late =>
       let failed := ((cadenceClauses pubs late).filter (fun x => !x.2)).map (·.1)
-      if !failed.isEmpty then "propfail " ++ ",".intercalate failed ++ " arm=cadence-" ++ kind
-      else "ok arm=cadence-" ++ kind
+      -- informer loop: the nominal schedule of the regenerated loop body (Gen.rearmProg), interpreted
+      let model : Option Nat :=
+        if kind == "inf" && pubs == 8 then
+          match ttl.toNat?, cadOutcomes errs with
+          | some t, some outs => Glue.lateCount Gen.rearmProg ((t : Int) * 1000000) outs
+          | _, _ => none
+        else some 0
+      match model with
+      | none => "diff arm=cadence-" ++ kind ++ " model=loop-body-not-recognised"
+      | some ml =>
+        if !failed.isEmpty then
+          "propfail " ++ ",".intercalate failed ++ " arm=cadence-" ++ kind ++
+            (if kind == "inf" then (if ml == late then " sig=as-model" else " sig=other") else "")
+        else if ml != 0 then "diff arm=cadence-" ++ kind ++ " model=late=" ++ toString ml
+        else "ok arm=cadence-" ++ kind
     | _, _ => "bad-case"
   | _ => "bad-case"
 
